@@ -13,8 +13,11 @@ Definition cfan (fans : list (list nat)) (s : nat) (l : N) : nat :=
   | [] => 1
   | row => nth (N.to_nat l mod length row) row 1
   end.
+(** fan-out 9 marks a PASSTHROUGH handler: it returns the consumed message object itself *)
 Definition chf (fans : list (list nat)) (s : nat) (m : cm) : list cm :=
-  map (fun j => (fst m, snd m ++ [N.of_nat j])) (seq 0 (cfan fans s (fst m))).
+  let n := cfan fans s (fst m) in
+  if Nat.eqb n 9 then [m]
+  else map (fun j => (fst m, snd m ++ [N.of_nat j])) (seq 0 n).
 
 Record c01_case := C01 {
   q_k : nat;
